@@ -13,6 +13,7 @@ package ipinfo
 
 //@ func GetIPInfoFromIP
 //@   props C20 C18
+//@   params ip2info ip
 //@   ensures[C20,disabled-empty] ip2info == nil ==> result.0.CountryCode == "" && result.1 == nil
 //@   ensures[C20,nil-XA] ip2info != nil && ip == nil ==> result.0.CountryCode == "XA" && result.1 != nil
 //@   ensures[C20,non-global-XL] ip2info != nil && ip != nil && !ip_is_global_unicast(ip) ==> result.0.CountryCode == "XL"
@@ -24,6 +25,7 @@ package ipinfo
 
 //@ func GetIPInfoFromAddr
 //@   props C20 C18
+//@   params ip2info addr
 //@   ensures[C20,nil-XA] addr == nil ==> result.0.CountryCode == "XA" && result.1 != nil
 //@   trace[C20,unsplittable-XA] each net.SplitHostPort satisfies $res2 != nil ==> result.0.CountryCode == "XA" && result.1 != nil
 //@   trace[C20,unparsable-XA] each net.ParseIP satisfies $res0 == nil ==> result.0.CountryCode == "XA" && result.1 != nil
